@@ -62,6 +62,10 @@ def _formula_for(ctx, ci):
 
 
 def run(ctx):
+    from .. import absint
+
+    absint.INTEGER_ATOMS.update({"t", "MIN", "MAX", "TOTAL"})
+    ctx.assume("step counters and min/max/total step counts are integers (t+1 <= MAX is the same predicate as t < MAX)")
     ix = ctx.index
     base = ix.cls("fdtdx.fdtd.stop_conditions.StoppingCondition")
     subs = [c for c in ix.subclasses(base) if "__call__" in c.methods and not c.methods["__call__"].is_abstract]
@@ -70,6 +74,8 @@ def run(ctx):
     lt_min = _leaf("lt", T, MIN)
     lt_tot = _leaf("lt", T, TOTAL)
     time_keys = {lt_max.key: "t<MAX", lt_min.key: "t<MIN", lt_tot.key: "t<TOTAL"}
+    # a canonical leaf may be stored negated: polarity[key] is True when the leaf means the opposite
+    polarity = {lt_max.key: lt_max.negated, lt_min.key: lt_min.negated, lt_tot.key: lt_tot.negated}
     for ci in subs:
         ctx.unit(ci.methods["__call__"].where())
         name = ci.name
@@ -94,7 +100,9 @@ def run(ctx):
             rows.append((asg, sb_eval(F, asg)))
 
         def g(asg, key, default=True):
-            return asg.get(key, default)
+            if key not in asg:
+                return default
+            return asg[key] != polarity[key]
 
         # (a) never later than the condition's own maximum
         if has_max:
@@ -112,7 +120,7 @@ def run(ctx):
             )
         # (b) TimeStepCondition: continue <=> t < TOTAL
         if not has_max:
-            ok = leaves == [lt_tot.key] and all(v == a[lt_tot.key] for a, v in rows)
+            ok = leaves == [lt_tot.key] and all(v == g(a, lt_tot.key) for a, v in rows)
             ctx.ob("R7.2", f"{ci.qualname}.__call__:total", ok, "continue <=> curr_time_step < config.time_steps_total", _show([a for a, v in rows if v][:2], time_keys), "t < TOTAL")
         # (c) never before the minimum (when within the time bounds)
         if has_min:
@@ -137,7 +145,7 @@ def run(ctx):
 def _show(asgs, time_keys):
     out = []
     for a in asgs:
-        out.append({time_keys.get(k, "data"): v for k, v in a.items()})
+        out.append({("raw:" + time_keys[k]) if k in time_keys else "data": v for k, v in a.items()})
     return out
 
 
